@@ -262,3 +262,8 @@ mod tests {
         }
     }
 }
+
+#[cfg(kani)]
+pub(crate) mod verif {
+    include!(concat!(env!("LIBP2P_VERIF"), "/hooks/prost_codec_lib.rs"));
+}
